@@ -1372,9 +1372,11 @@ def compare(ctx, case, ans):
 # ---------------------------------------------------------------------------
 
 def regenerate(ctx):
-    changed = extract_uniform_grid.regenerate()
+    info = []
+    changed = extract_uniform_grid.regenerate(info=info)
+    ctx.extra['uniform_grid_table'] = info[0] if info else ''
     return [('extract(uniform_grid_fromintv node-placement table -> Gen/UniformGrid.lean)', True,
-             'regenerated' if changed else 'unchanged')]
+             ('regenerated' if changed else 'unchanged') + '; ' + (info[0] if info else ''))]
 
 
 def gen_cases(ctx, budget):
